@@ -34,6 +34,9 @@ def gen_inputs(rng, spec, n=None, engines_ok=None, pti_status_varies=False):
     inp["alias"] = bool(rng.random() < 0.3)
     # flag series assigned blank and then filled in place (pti.full_pti_mode = np.zeros(n, bool); pti.full_pti_mode[3:5] = True)
     inp["fill_in_place"] = bool(rng.random() < 0.3)
+    # an attribute the statement does not mention: the on/off series a shaft load carries like every component (nothing sets or reads
+    # it in ordinary use) - the power a load absorbs is its power, whatever that series says (seeded change C04-r6)
+    inp["load_status_marks"] = bool(rng.random() < 0.3)
     first_shaft = None
     for c in spec["mechanical"]:
         if c["kind"] == "pti_pto_ref":
@@ -87,6 +90,10 @@ def apply_inputs(plant, inp):
             obj.status = on_vector if (inp.get("shared_on_vector") and len(d["status"]) == n and all(d["status"])) else np.array(d["status"], dtype=st_dt)
         elif c["kind"] == "mech_load":
             obj.set_power_input_from_output(arr(d["load"]))
+            if inp.get("load_status_marks"):
+                core.axis("shaft_load_status_series", "some steps marked off")
+                marks = np.random.default_rng(n + len(c["name"])).random(n) < 0.5
+                obj.status = np.array(marks, dtype=st_dt)
         else:
             obj.status = np.array(d["status"], dtype=bool)
             fl_dt = {"bool": bool, "int": int, "float": float}[inp.get("dtype", {}).get("full", "bool")]
